@@ -36,7 +36,7 @@ vars == <<u1, acc, old, hist>>
 User(n) == IF n = "u1" THEN u1 ELSE Static[n]
 
 (* ---- decisions ------------------------------------------------------------- *)
-HttpEntries == {"httpflv", "wsflv", "m3u8", "ts", "wsrtsp_play"}
+HttpEntries == {"httpflv", "wsflv", "m3u8", "ts", "wsrtsp_play", "wsp_play"}
 RtspCreds == {"valid", "wrong", "none"}
 TokCreds == {"access", "refresh", "old", "garbage", "none"}
 (* is the credential itself good? (tokens are only modelled for u1; adm and u2 log in freshly: access = live) *)
